@@ -64,6 +64,12 @@ fn loop_cases(tier: Tier) -> Vec<Case> {
                     let (doc, cfg_l) = with_limit("loop-limit", l, via, &body);
                     let ll = if via { 1000 } else { cfg_l };
                     v.push(mk(doc, ll, 1024, 100, if ok_here { Some(bodies) } else { None }, format!("loop:{name}:L={l}:n={n}:{}", if via { "config-element" } else { "config" })));
+                    // the same loop inside <specs>: nothing is rendered there, but the limit holds all the same
+                    if matches!(name, "count" | "while" | "nested") {
+                        let (doc, cfg_l) = with_limit("loop-limit", l, via, &format!("<specs>{body}</specs>"));
+                        let ll = if via { 1000 } else { cfg_l };
+                        v.push(mk(doc, ll, 1024, 100, if ok_here { Some(0) } else { None }, format!("loop:{name}-in-specs:L={l}:n={n}:{}", if via { "config-element" } else { "config" })));
+                    }
                 }
             }
         }
@@ -87,6 +93,10 @@ fn var_cases(tier: Tier) -> Vec<Case> {
                 let len2 = (n / 2) * 2;
                 let (doc, cfg_l) = with_limit("var-limit", l, via, &expr);
                 v.push(mk(doc, 1000, if via { 1024 } else { cfg_l }, 100, if len2 <= l as usize { Some(1) } else { None }, format!("var:concat:L={l}:len={len2}:{}", if via { "config-element" } else { "config" })));
+                // a <var> inside <specs>
+                let in_specs = format!("<specs><var v=\"{}\"/></specs><text class=\"body\" text=\"x\"/>", "e".repeat(n));
+                let (doc, cfg_l) = with_limit("var-limit", l, via, &in_specs);
+                v.push(mk(doc, 1000, if via { 1024 } else { cfg_l }, 100, if ok { Some(1) } else { None }, format!("var:direct-in-specs:L={l}:len={n}:{}", if via { "config-element" } else { "config" })));
                 // attributes of a <reuse> become variables of the instance: given directly, and by expansion
                 // (every attribute of the reuse element is such a variable, href="#t" included: only limits that admit it)
                 if l < 4 {
